@@ -108,23 +108,13 @@ pub const ANN_TYPES: &[&str] = &[
 // inputs are quarantined on the other levels (Display stage skipped), here nothing is skipped
 pub const QUAR: &[&str] = &[
     "\"\\ff\"",
-    "( \"\\ff\" )",
-    "blob \"\\ff\"",
-    "( blob \"\\ff\" , blob \"\\ff\" blob )",
+    "( blob \"\\ff\" , \"\\ff\" )",
     "\"\\c3\\a9\"",
     "\"\\e2\\82\"",
-    "\"\\f0\"",
-    "\"a\\80b\" a",
-    "type a = \"\\ff\" ;",
-    "import \"\\ff\" ; \"\\ff\"",
+    "type a = \"\\f0\" ;",
+    "import \"\\ff\" ; \"a\\80b\"",
     "record { \"\\ff\" : nat }",
     "( record { \"\\ff\" = 1 } )",
-    "( variant { \"\\ff\" } )",
-    "( principal \"\\ff\" )",
-    "( func \"aaaaa-aa\" . \"\\ff\" )",
-    "service : { \"\\ff\" : ( ) -> ( ) }",
-    "assert \"\\ff\" : ( ) ;",
-    "assert blob \"\\ff\" : ( ) \"\\ff\" ;",
     "assert blob \"\\ff\" == \"\\ff\" \"\\ff\"",
     "\"\\ff",
 ];
@@ -272,13 +262,49 @@ fn mutant(idx: u64) -> String {
     toks.join(" ")
 }
 
+/// structural mutants only: the seed, deletions, duplications, adjacent swaps
+fn seed_block_s(m: u64) -> u64 {
+    1 + m + m + m.saturating_sub(1)
+}
+
+fn seed_table_s() -> &'static SeedTable {
+    static T: OnceLock<SeedTable> = OnceLock::new();
+    T.get_or_init(|| {
+        let mut offsets = vec![0u64];
+        for s in SEEDS {
+            let last = *offsets.last().unwrap();
+            offsets.push(last + seed_block_s(s.len() as u64));
+        }
+        SeedTable { offsets }
+    })
+}
+
+fn mutant_s(idx: u64) -> String {
+    let tab = seed_table_s();
+    let s = match tab.offsets.binary_search(&idx) {
+        Ok(i) => i,
+        Err(i) => i - 1,
+    };
+    let m = SEEDS[s].len() as u64;
+    let t = TOKENS_FULL.len() as u64;
+    let j = idx - tab.offsets[s];
+    // map onto the index space of `mutant`: skip the replacement block
+    let jj = if j < 1 + 2 * m { j } else { j + m * t };
+    mutant(seed_table().offsets[s] + jj)
+}
+
+/// depths of the nesting templates that are also rendered by pretty_parse
+pub const NESTP_DEPTHS: &[u64] = &[1, 2, 3, 64, 128];
+
 // ---- family dispatch
 pub enum Family {
     Chars { min: u32, max: u32 },
     Toks { alpha: &'static [&'static str], min: u32, max: u32 },
     Mut,
+    MutS,
     Ann,
     Nest,
+    NestP,
     Quar,
     Lit(String),
 }
@@ -314,6 +340,8 @@ impl Family {
             "toksF" => Some(Family::Toks { alpha: TOKENS_FULL, min: num(1)?, max: num(2)? }),
             "toksC" => Some(Family::Toks { alpha: TOKENS_CORE, min: num(1)?, max: num(2)? }),
             "mut" => Some(Family::Mut),
+            "mutS" => Some(Family::MutS),
+            "nestP" => Some(Family::NestP),
             "ann" => Some(Family::Ann),
             "nest" => Some(Family::Nest),
             "quar" => Some(Family::Quar),
@@ -329,6 +357,8 @@ impl Family {
             Family::Chars { min, max } => pow_range(CHARS.len() as u64, *min, *max),
             Family::Toks { alpha, min, max } => pow_range(alpha.len() as u64, *min, *max),
             Family::Mut => *seed_table().offsets.last().unwrap(),
+            Family::MutS => *seed_table_s().offsets.last().unwrap(),
+            Family::NestP => nest_templates().len() as u64 * NESTP_DEPTHS.len() as u64,
             Family::Ann => (ANN_SIGNS.len() * ANN_NUMS.len() * ANN_TYPES.len()) as u64,
             Family::Nest => nest_templates().len() as u64 * NEST_DEPTH,
             Family::Quar => QUAR.len() as u64,
@@ -347,6 +377,12 @@ impl Family {
                 digits.iter().map(|d| alpha[*d]).collect::<Vec<_>>().join(" ")
             }
             Family::Mut => mutant(idx),
+            Family::MutS => mutant_s(idx),
+            Family::NestP => {
+                let n = NESTP_DEPTHS.len() as u64;
+                let t = &nest_templates()[(idx / n) as usize];
+                (t.make)(NESTP_DEPTHS[(idx % n) as usize] as usize)
+            }
             Family::Ann => {
                 let nt = ANN_TYPES.len() as u64;
                 let nn = ANN_NUMS.len() as u64;
